@@ -89,6 +89,28 @@ impl Desc {
     }
 }
 
+/// The description that `build` can actually express with the enabled cargo features: setters that need
+/// `power-of-two` (radices; with `format`: base prefix/suffix and their case flags) or `format` (separator, flags)
+/// do not exist otherwise, so those fields keep their defaults.
+pub const fn effective(d: &Desc) -> Desc {
+    let mut e = *d;
+    if !cfg!(feature = "power-of-two") {
+        e.radix = 10;
+        e.base = 0;
+        e.exp_radix = 0;
+    }
+    if !cfg!(all(feature = "power-of-two", feature = "format")) {
+        e.prefix = 0;
+        e.suffix = 0;
+        e.flags &= !(CSBP | CSBS);
+    }
+    if !cfg!(feature = "format") {
+        e.sep = 0;
+        e.flags = DEFAULT_FLAGS;
+    }
+    e
+}
+
 /// Apply the documented setters (unchecked build: invalid descriptions can be built too).
 pub const fn build(d: &Desc) -> u128 {
     #[allow(unused_mut)]
